@@ -41,10 +41,11 @@ type c08Cfg struct {
 	Delay    int
 	Stall    int // per mille of block requests that are held for a moment
 	Fail     int // per mille of first requests for a block that are answered 500 (the sync fails)
+	IdleTTL  int // microseconds; >0: idle-handler time-to-live far shorter than a sync takes
 }
 
 func (k c08Cfg) String() string {
-	return fmt.Sprintf("publishers=%d max-async=%d explicit-syncs=%v bursts=%d tap-delay=%d/1000 stall=%d/1000 last-known-baseline=%v explicit-timeouts=%v failing-requests=%d/1000", k.K, k.MaxAsync, k.Explicit, k.Bursts, k.Delay, k.Stall, k.LastKnown, k.Timeouts, k.Fail)
+	return fmt.Sprintf("publishers=%d max-async=%d explicit-syncs=%v bursts=%d tap-delay=%d/1000 stall=%d/1000 last-known-baseline=%v explicit-timeouts=%v failing-requests=%d/1000 idle-handler-ttl=%dus", k.K, k.MaxAsync, k.Explicit, k.Bursts, k.Delay, k.Stall, k.LastKnown, k.Timeouts, k.Fail, k.IdleTTL)
 }
 
 func runC08(c *vf.Ctx) {
@@ -73,6 +74,13 @@ func c08Run(c *vf.Ctx, sub string, explicit, lastKnown bool) {
 		k := c08Cfg{LastKnown: lastKnown, Timeouts: explicit && r.Intn(2) == 0, K: 1 + r.Intn(4), Explicit: explicit, Bursts: 2 + r.Intn(4), Delay: []int{0, 100, 300, 600}[r.Intn(4)], Stall: []int{0, 100, 300}[r.Intn(3)]}
 		if !explicit && r.Intn(2) == 0 {
 			k.Fail = []int{60, 150, 300}[r.Intn(3)]
+		}
+		if r.Intn(4) == 0 {
+			// the idle-handler cleaner runs many times while syncs (held at the publisher) are in progress
+			k.IdleTTL = []int{300, 1000, 3000}[r.Intn(3)]
+			if k.Stall == 0 {
+				k.Stall = 300
+			}
 		}
 		switch r.Intn(6) {
 		case 0:
@@ -186,6 +194,9 @@ func c08One(c *vf.Ctx, sub string, i int, r *rand.Rand, k c08Cfg, ids []Ident) {
 	if k.MaxAsync > 0 {
 		opts = append(opts, dagsync.MaxAsyncConcurrency(k.MaxAsync))
 	}
+	if k.IdleTTL > 0 {
+		opts = append(opts, dagsync.IdleHandlerTTL(time.Duration(k.IdleTTL)*time.Microsecond))
+	}
 	s, err := newSubscriber(dst, opts...)
 	if err != nil {
 		c.Fail(sub, i, "harness-subscriber", err.Error(), nil)
@@ -201,6 +212,8 @@ func c08One(c *vf.Ctx, sub string, i int, r *rand.Rand, k c08Cfg, ids []Ident) {
 	evs, cancelEvs := s.OnSyncFinished()
 	var emu sync.Mutex
 	var events []dagsync.SyncFinished
+	entriesSyncs := 0
+	var entriesBad []string
 	evDone := make(chan struct{})
 	go func() {
 		defer close(evDone)
@@ -313,6 +326,48 @@ func c08One(c *vf.Ctx, sub string, i int, r *rand.Rand, k c08Cfg, ids []Ident) {
 					_, _ = s.SyncAdChain(ctx, p.front.AddrInfo())
 					tl.mark("client.explicit.ret", p.id.ID, cid.Undef)
 					stop()
+				}
+			}(p)
+			// entries syncs of the same publisher (they share the per-publisher lock and hook slot with ad syncs);
+			// their blocks go to a hook scoped to the call
+			wg.Add(1)
+			rr3 := rand.New(rand.NewSource(r.Int63()))
+			go func(p *c08Pub) {
+				defer wg.Done()
+				for e := 0; e < 1+rr3.Intn(3); e++ {
+					time.Sleep(time.Duration(rr3.Intn(4000)) * time.Microsecond)
+					ech, err := NewEntryChain(rr3, p.st, 1+rr3.Intn(3), linkProto(multihash.SHA2_256, -1))
+					if err != nil {
+						return
+					}
+					var got []cid.Cid
+					var gmu sync.Mutex
+					eh := func(_ peer.ID, cd cid.Cid, act dagsync.SegmentSyncActions) {
+						gmu.Lock()
+						got = append(got, cd)
+						gmu.Unlock()
+					}
+					tl.mark("client.entries.call", p.id.ID, ech.Head())
+					err = s.SyncEntries(context.Background(), p.front.AddrInfo(), ech.Head(), dagsync.ScopedBlockHook(eh))
+					tl.mark("client.entries.ret", p.id.ID, ech.Head())
+					gmu.Lock()
+					var want []string
+					for x := len(ech.Cids) - 1; x >= 0; x-- {
+						want = append(want, ech.Cids[x].String())
+					}
+					var gs []string
+					for _, g := range got {
+						gs = append(gs, g.String())
+					}
+					gmu.Unlock()
+					emu.Lock()
+					entriesSyncs++
+					if err != nil {
+						entriesBad = append(entriesBad, fmt.Sprintf("SyncEntries error: %v", err))
+					} else if strings.Join(gs, ",") != strings.Join(want, ",") {
+						entriesBad = append(entriesBad, fmt.Sprintf("entries sync of %d chunks reported %d blocks to its own hook: %v", len(want), len(gs), gs))
+					}
+					emu.Unlock()
 				}
 			}(p)
 		}
@@ -473,6 +528,12 @@ func c08One(c *vf.Ctx, sub string, i int, r *rand.Rand, k c08Cfg, ids []Ident) {
 			}
 		}
 	}
+	emu.Lock()
+	if len(entriesBad) > 0 {
+		c.Fail(sub, i, "entries-sync-hook-calls-differ", entriesBad[0], wit())
+	}
+	c.Add("entries_syncs_of_the_same_publishers", int64(entriesSyncs))
+	emu.Unlock()
 	if k.MaxAsync > 0 && semMax > k.MaxAsync {
 		c.Fail(sub, i, "more-announce-syncs-than-configured-maximum", fmt.Sprintf("%d at once, maximum %d", semMax, k.MaxAsync), wit())
 	}
@@ -602,6 +663,9 @@ func c08One(c *vf.Ctx, sub string, i int, r *rand.Rand, k c08Cfg, ids []Ident) {
 	c.Add("explicit_syncs_with_expiring_context", int64(explicitWithDeadline))
 	if k.LastKnown {
 		c.Inc("runs_with_last_known_baseline")
+	}
+	if k.IdleTTL > 0 {
+		c.Inc("runs_with_idle_handler_ttl_shorter_than_a_sync")
 	}
 	if k.Fail > 0 {
 		c.Inc("runs_with_failing_syncs")
